@@ -305,9 +305,10 @@ def _(c):
 
 
 def _grid_dates(tier, rng):
-    """every propagator x an explicit list of 4 dates (unevenly spaced, one repeated epoch) and the same as a Date.range"""
+    """every propagator x an explicit list of 4 dates (unevenly spaced, one repeated epoch), the same as a Date.range, and lists that are not in ascending order
+    (descending; arbitrary order) spanning more than the numerical propagators' interpolation window"""
     for p in range(len(PROPS)):
-        for kind in (0, 1):
+        for kind in (0, 1, 2, 3):
             yield {"prop": p, "kind": kind}
 
 
@@ -318,9 +319,17 @@ def _(c):
     prop = PROPS[c.integer("prop")]
     c.require(prop != "none")
     src, d0 = _make(prop)
-    if c.integer("kind") == 0:
-        dates = [d0 + timedelta(seconds=s) for s in (0.0, 130.0, 700.5, 1900.0)]
+    kind = c.integer("kind")
+    if kind in (0, 2, 3):
+        secs = {0: (0.0, 130.0, 700.5, 1900.0), 2: (1900.0, 1210.0, 700.5, 130.0, 0.0), 3: (700.5, 0.0, 1900.0, 130.0, 1210.0)}[kind]
+        dates = [d0 + timedelta(seconds=s) for s in secs]
         pts = list(src.iter(dates=dates))
+        if kind != 0:
+            # the i-th state is the state AT the i-th requested date
+            tol = 0.05 if prop.startswith("num") else 1e-3
+            c.ensure("each_state_is_for_its_date", len(pts) == len(dates) and all(
+                bool(np.linalg.norm(np.asarray(src.propagate(d).copy(form="cartesian")[:3], dtype=float) - np.asarray(p.copy(form="cartesian")[:3], dtype=float)) <= tol)
+                for p, d in zip(pts, dates)))
     else:
         dates = list(Date.range(d0 + timedelta(seconds=100), d0 + timedelta(seconds=900), timedelta(seconds=200), inclusive=True))
         pts = list(src.iter(dates=Date.range(d0 + timedelta(seconds=100), d0 + timedelta(seconds=900), timedelta(seconds=200), inclusive=True)))
